@@ -111,6 +111,11 @@ theorem C17_pipeline_raises_only_own_errors (stages : List Stage) (C : Comparato
     rw [ho] at h
     exact compile_no_internal C r2 [] r2.name e hs h
 
+/-- evaluation (with or without a functions_map, any assignment) raises nothing but bartiq's own error class either -/
+theorem C17_evaluate_raises_only_own_errors (C : Comparator) (c : CRoutine) (σ : Dict Expr) (fns : List FnImpl) (e : Err)
+    (h : evaluateWith C c σ fns = .error e) : e.isInternal = false :=
+  evaluateInternal_no_internal C σ (Expr.defineFns fns) c c.name e h
+
 /-- a compiled node carries an additive/multiplicative resource under every name its source (or, for a repetition wrapper,
     its only child) promises — what makes the wrapper's assertions hold at every nesting depth -/
 theorem C17_wrapper_assertions_hold (C : Comparator) (r : Routine) (inputs : Dict Expr) (path : String) (c : CRoutine)
